@@ -103,6 +103,14 @@ func tierOf(args []string) (string, []string) {
 	return tier, rest
 }
 
+// workerCount: all cores, or GOSYM_WORKERS (for sweeps that run beside other work).
+func workerCount() int {
+	if n, err := strconv.Atoi(os.Getenv("GOSYM_WORKERS")); err == nil && n > 0 {
+		return n
+	}
+	return runtime.NumCPU()
+}
+
 func seedOf() int64 {
 	s, _ := strconv.ParseInt(os.Getenv("VERIF_SEED"), 10, 64)
 	return s
